@@ -763,6 +763,15 @@ def r_sign(ctx):
             objs = {dotted(n.value) for n in ast.walk(s.value) if isinstance(n, ast.Attribute) and n.attr in ("expression", "matrix_of_expressions")}
             lp = flow.in_loop(s)
             okp = len(recv) == 1 and recv == objs and lp is not None and isinstance(lp.target, ast.Name) and recv == {lp.target.id}
+            if okp:
+                # every tracked object contributes: exactly one accumulation per element on every path, over the whole tracked list
+                pc = flow.path_counts(lp.body, lambda n: False, lambda st, s_=s: st is s_)
+                okp = set(pc) == {"next"} and pc["next"] == {1} and isinstance(lp.iter, ast.Attribute)
+                if not okp:
+                    ctx.ob("R-SIGN", "PEP.%s::every tracked object contributes (%s)" % (rec.name, _family(s.value)[0]), False,
+                           "the multiplier term is accumulated conditionally / not over the whole tracked list (%s): some sent constraints are missing from the identity"
+                           % {k: sorted(v) for k, v in pc.items()}, loc(rec, s))
+                    continue
             ctx.ob("R-SIGN", "PEP.%s::pairs a multiplier with its own constraint (%s)" % (rec.name, _family(s.value)[0]), okp,
                    "multiplier and constrained object come from the same loop element" if okp else
                    "multiplier of %s combined with %s" % (sorted(recv), sorted(objs)), loc(rec, s))
